@@ -117,15 +117,25 @@ impl Data {
         header: &[u8],
     ) -> Result<Self, CreateError> {
         let path = name.as_ref().with_extension("byteseries");
-        let file = FileWithHeader::new(&path, header)
-            .map_err(|source| CreateError::File { source, path })?;
+        let file =
+            FileWithHeader::new(&path, header).map_err(|source| CreateError::File {
+                source,
+                path: path.clone(),
+            })?;
         let (file_handle, _) = file.split_off_header();
         let data_len = file_handle
             .data_len_bytes()
             .map_err(CreateError::GetLength)?;
         let file_handle = FileWithInlineMeta::new(file_handle, payload_size)
             .map_err(CreateError::CheckOrRepair)?;
-        let index = Index::new(name).map_err(CreateError::Index)?;
+        let index = match Index::new(name) {
+            Ok(index) => index,
+            Err(e) => {
+                // do not leave a data file without index behind
+                let _ignore = std::fs::remove_file(&path);
+                return Err(CreateError::Index(e));
+            }
+        };
         Ok(Self {
             file_handle,
             index,
